@@ -187,7 +187,8 @@ theorem program_roundtrip {p : Program} {ts : List Token} (h : LinProgram Y p ts
         blockCond_false d _ [] _ (Or.inl rfl)
       simp only [this, Bool.false_eq_true, if_false]
       rfl
-    have hloop := imports_roundtrip (v := v) hi none [] false [] _ 1 (by simpa using ho) (by show cTypeEOF ∈ afterImport; decide) hcont
+    have hloop := imports_roundtrip (v := v) hi none [] false [] _ 1 (by simpa using ho) (by show cTypeEOF ∈ afterImport; decide)
+      (fun h => absurd (show cTypeEOF = cTypeStmtSep from h) (by decide)) hcont
       (m + 3) (by unfold fP at hn; omega)
     rw [List.append_nil] at hloop
     have hprog : parse v (layoutOps Y) (m + 4) .program (S Y none ts false) =
@@ -198,7 +199,7 @@ theorem program_roundtrip {p : Program} {ts : List Token} (h : LinProgram Y p ts
       exact hloop
     rw [hprog]
     rfl
-  | importsBody d ims ti x tx hne hi hx =>
+  | importsBody d ims ti x tx hne hi hx hsemi =>
     have hh := linImports_heads hi hne
     obtain ⟨hxne, hhd, _⟩ := linN_claim (v := v) hx
     have hlen : fE tx ≤ m + 1 - 16 * ti.length ∧ 16 * ti.length ≤ m := by
@@ -209,7 +210,8 @@ theorem program_roundtrip {p : Program} {ts : List Token} (h : LinProgram Y p ts
       obtain ⟨k, rfl⟩ : ∃ k, n' = k + 3 := ⟨n' - 3, by unfold fE at hn'; omega⟩
       exact programLoop_exec hx _ _ ims (inOrder_drop ti ho) k (by omega)
     have hloop := imports_roundtrip (v := v) hi none tx false [] _ (fE tx + 2) ho
-      (by rw [← peek_append hxne []]; simpa using execHeads_afterImport _ hhd.1) hcont (m + 3) (by omega)
+      (by rw [← peek_append hxne []]; simpa using execHeads_afterImport _ hhd.1)
+      (by rw [lastTok_ne none hne]; exact hsemi) hcont (m + 3) (by omega)
     have hpk : Y.peek (ti ++ tx) = Y.peek ti := peek_append hne tx
     have hprog : parse v (layoutOps Y) (m + 4) .program (S Y none (ti ++ tx) false) =
         .ok { imports := ims, exec := some x } (S Y tx.getLast? [] true) := by
